@@ -285,6 +285,17 @@ Proof.
   rewrite R. destruct d; cbn; rewrite W; cbn; reflexivity.
 Qed.
 
+(* update.go newUpdater, for EVERY state (stale reads included): when the updater's own re-read finds the run at ANOTHER status
+   than the one the function was invoked at — higher or lower, declared destination or not — it writes nothing and returns nil:
+   its final state is the state right after that lookup *)
+Theorem updater_moved_on cur next run s l s1 :
+  p_lookup (r_run run) s = (Ok (Some l), s1) -> r_status l <> cur ->
+  updater c cur next run s = (Ok tt, s1).
+Proof.
+  intros Hl Hs. unfold updater. unfold bind at 1, get_w. cbn [fst snd]. unfold bind at 1. rewrite Hl.
+  assert (E : (r_status l =? cur) = false) by (apply Z.eqb_neq; exact Hs). rewrite E. reflexivity.
+Qed.
+
 Theorem updater_undeclared cur next run s :
   validate_transition (ec_graph c) cur next = false ->
   o_w (snd (updater c cur next run s)) = o_w s /\
